@@ -200,8 +200,8 @@ def _convert_unary_intrinsic(
 ):
     operand = val_map[op.operands[0]]
     fn_type = ir.FunctionType(operand.type, [operand.type])
-    intrinsic = builder.module.declare_intrinsic(
-        _UNARY_INTRINSIC_MAP[type(op)], fnty=fn_type
+    intrinsic = declare_intrinsic(
+        builder.module, _UNARY_INTRINSIC_MAP[type(op)], operand.type, fn_type
     )
     val_map[op.results[0]] = builder.call(intrinsic, [operand])
 
@@ -212,8 +212,8 @@ def _convert_binary_intrinsic(
     lhs = val_map[op.operands[0]]
     rhs = val_map[op.operands[1]]
     fn_type = ir.FunctionType(lhs.type, [lhs.type, rhs.type])
-    intrinsic = builder.module.declare_intrinsic(
-        _BINARY_INTRINSIC_MAP[type(op)], fnty=fn_type
+    intrinsic = declare_intrinsic(
+        builder.module, _BINARY_INTRINSIC_MAP[type(op)], lhs.type, fn_type
     )
     val_map[op.results[0]] = builder.call(intrinsic, [lhs, rhs])
 
